@@ -44,6 +44,8 @@ IntroView(s, incDep) ==
     types |-> [n \in DOMAIN s.types |-> DefView(s, s.types[n], incDep)],
     dirs |-> [n \in DOMAIN s.dirs |-> [desc |-> s.dirs[n].desc, locs |-> Range(s.dirs[n].locs), args |-> ArgsView(s, s.dirs[n].args)]] ]
 
+\* the meta-fields live on the query root type: a schema can be asked only when it has one
+Queryable(s) == s.roots["query"] # "" /\ s.roots["query"] \in DOMAIN s.types
 \* both settings of includeDeprecated
 Intro(s) == [all |-> IntroView(s, TRUE), current |-> IntroView(s, FALSE)]
 =============================================================================
